@@ -184,6 +184,9 @@ Props/C12.vos Props/C12.vok Props/C12.required_vos: Props/C12.v Base/Result.vos 
 Proofs/RefFacts.vo Proofs/RefFacts.glob Proofs/RefFacts.v.beautified Proofs/RefFacts.required_vo: Proofs/RefFacts.v Base/Result.vo Base/Str.vo Base/AstOp.vo Model/Ast.vo Model/FM.vo Model/PFM.vo Model/Queries.vo Format/Xml.vo Format/Ref.vo Proofs/QueriesFacts.vo Proofs/JsonFacts.vo Proofs/FamaFacts.vo Proofs/AfmFacts.vo
 Proofs/RefFacts.vio: Proofs/RefFacts.v Base/Result.vio Base/Str.vio Base/AstOp.vio Model/Ast.vio Model/FM.vio Model/PFM.vio Model/Queries.vio Format/Xml.vio Format/Ref.vio Proofs/QueriesFacts.vio Proofs/JsonFacts.vio Proofs/FamaFacts.vio Proofs/AfmFacts.vio
 Proofs/RefFacts.vos Proofs/RefFacts.vok Proofs/RefFacts.required_vos: Proofs/RefFacts.v Base/Result.vos Base/Str.vos Base/AstOp.vos Model/Ast.vos Model/FM.vos Model/PFM.vos Model/Queries.vos Format/Xml.vos Format/Ref.vos Proofs/QueriesFacts.vos Proofs/JsonFacts.vos Proofs/FamaFacts.vos Proofs/AfmFacts.vos
-Props/C09.vo Props/C09.glob Props/C09.v.beautified Props/C09.required_vo: Props/C09.v Base/Result.vo Base/AstOp.vo Model/Ast.vo Model/FM.vo Model/PFM.vo Format/Xml.vo Format/Ref.vo Proofs/FideFacts.vo Proofs/RefFacts.vo
-Props/C09.vio: Props/C09.v Base/Result.vio Base/AstOp.vio Model/Ast.vio Model/FM.vio Model/PFM.vio Format/Xml.vio Format/Ref.vio Proofs/FideFacts.vio Proofs/RefFacts.vio
-Props/C09.vos Props/C09.vok Props/C09.required_vos: Props/C09.v Base/Result.vos Base/AstOp.vos Model/Ast.vos Model/FM.vos Model/PFM.vos Format/Xml.vos Format/Ref.vos Proofs/FideFacts.vos Proofs/RefFacts.vos
+Proofs/C09Facts.vo Proofs/C09Facts.glob Proofs/C09Facts.v.beautified Proofs/C09Facts.required_vo: Proofs/C09Facts.v Base/Result.vo Base/AstOp.vo Model/Ast.vo Model/FM.vo Model/PFM.vo Format/Json.vo Format/Glencoe.vo Format/Afm.vo
+Proofs/C09Facts.vio: Proofs/C09Facts.v Base/Result.vio Base/AstOp.vio Model/Ast.vio Model/FM.vio Model/PFM.vio Format/Json.vio Format/Glencoe.vio Format/Afm.vio
+Proofs/C09Facts.vos Proofs/C09Facts.vok Proofs/C09Facts.required_vos: Proofs/C09Facts.v Base/Result.vos Base/AstOp.vos Model/Ast.vos Model/FM.vos Model/PFM.vos Format/Json.vos Format/Glencoe.vos Format/Afm.vos
+Props/C09.vo Props/C09.glob Props/C09.v.beautified Props/C09.required_vo: Props/C09.v Base/Result.vo Base/AstOp.vo Model/Ast.vo Model/FM.vo Model/PFM.vo Format/Xml.vo Format/Ref.vo Proofs/FideFacts.vo Proofs/RefFacts.vo Proofs/C09Facts.vo Format/Json.vo Format/Glencoe.vo Format/Afm.vo
+Props/C09.vio: Props/C09.v Base/Result.vio Base/AstOp.vio Model/Ast.vio Model/FM.vio Model/PFM.vio Format/Xml.vio Format/Ref.vio Proofs/FideFacts.vio Proofs/RefFacts.vio Proofs/C09Facts.vio Format/Json.vio Format/Glencoe.vio Format/Afm.vio
+Props/C09.vos Props/C09.vok Props/C09.required_vos: Props/C09.v Base/Result.vos Base/AstOp.vos Model/Ast.vos Model/FM.vos Model/PFM.vos Format/Xml.vos Format/Ref.vos Proofs/FideFacts.vos Proofs/RefFacts.vos Proofs/C09Facts.vos Format/Json.vos Format/Glencoe.vos Format/Afm.vos
